@@ -7,7 +7,9 @@ import (
 	"math"
 	"os"
 	"path/filepath"
+	"runtime"
 	"sort"
+	"time"
 
 	wt "github.com/hnakamur/whispertool"
 	"pgregory.net/rapid"
@@ -328,6 +330,9 @@ func genHistoryAt(t *rapid.T, l Layout, o histGenOpts, now int64) HistCase {
 		case k < 18:
 			if o.Abandon && rapid.IntRange(0, 7).Draw(t, "createAgain") == 0 {
 				op.Kind = "create-again"
+				if syncedOnce && rapid.Bool().Draw(t, "recreateInPlace") {
+					op.ID = 1 // in place, without O_EXCL, dropped before its first Sync
+				}
 			} else {
 				op.Kind = "sync"
 				syncedOnce = true
@@ -336,6 +341,9 @@ func genHistoryAt(t *rapid.T, l Layout, o histGenOpts, now int64) HistCase {
 			switch {
 			case o.Abandon && syncedOnce && rapid.IntRange(0, 2).Draw(t, "abandon") > 0:
 				op.Kind = "abandon"
+				if rapid.IntRange(0, 3).Draw(t, "dropWithoutClose") == 0 {
+					op.ID = 1 // the handle is not even closed: it becomes garbage
+				}
 			case o.Reopen:
 				op.Kind = "reopen"
 				syncedOnce = true
@@ -477,8 +485,32 @@ func (h *histRunner) apply(op Op) (fs []Finding) {
 				}
 			}
 		}
+		var pre *Model
+		if _, short := viaShortAPIWould(op.ID, h.now); short {
+			pre = h.m.Clone()
+		}
 		h.m.UpdateBatch(op.Points, op.ID, h.now)
+		shortAPIReadings = shortAPIReadings[:0]
 		err, pm := batchWT(h.db, append([]MPoint(nil), op.Points...), op.ID, h.now)
+		if pre != nil && pm == "" && err == nil && len(shortAPIReadings) > 1 {
+			// the call read the (ticking) clock more than once: its result must still be what ONE of those clock
+			// values gives - routing some points by one reading and others by another matches none
+			if raw, f := h.rawState(); len(f) == 0 && len(h.compareRawToModel(raw, h.m, -1)) > 0 {
+				matched := false
+				for _, c := range shortAPIReadings[1:] {
+					m2 := pre.Clone()
+					m2.UpdateBatch(op.Points, op.ID, c)
+					if len(h.compareRawToModel(raw, m2, -1)) == 0 {
+						h.m, matched = m2, true
+						break
+					}
+				}
+				if !matched {
+					fs = append(fs, h.finding("batch-mixes-clock-readings", "UpdateMany(%d points) read the clock %d times (%v) and its result matches none of these clock values", len(op.Points), len(shortAPIReadings), shortAPIReadings))
+					return
+				}
+			}
+		}
 		if pm != "" {
 			fs = append(fs, h.finding("batch-panic", "UpdatePointsForArchive(%d points, id=%d) panicked: %s", len(op.Points), op.ID, pm))
 			return
@@ -516,6 +548,37 @@ func (h *histRunner) apply(op Op) (fs []Finding) {
 		h.db = db
 		h.facts["reopen"]++
 	case "create-again":
+		if op.ID == 1 {
+			// Create in place over the existing, populated file (no O_EXCL, as a caller re-initialising a metric
+			// does) and drop that handle before its first Sync: "the file's bytes change only during Sync"
+			if err := h.db.Sync(); err != nil {
+				fs = append(fs, h.finding("sync-error", "Sync: %v", err))
+				return
+			}
+			h.synced = h.m.Clone()
+			h.db.Close()
+			before, _ := os.ReadFile(h.path)
+			db2, cerr := createWT(h.path, h.l, wt.WithOpenFileFlag(os.O_RDWR))
+			if cerr == nil {
+				db2.Close()
+			}
+			after, _ := os.ReadFile(h.path)
+			if string(after) != string(before) {
+				h.db = nil
+				fs = append(fs, h.finding("bytes-changed-outside-sync", "Create over the existing file (flag O_RDWR, result %v), closed before any Sync, changed the file's bytes (first difference at offset %d)", cerr, firstDiff(after, before)))
+				return
+			}
+			db, err := openWT(h.path)
+			if err != nil {
+				h.db = nil
+				fs = append(fs, h.finding("reopen-error", "Open after the abandoned re-create failed: %v", err))
+				return
+			}
+			h.db = db
+			h.facts["recreate-abandoned"]++
+			h.facts["reopen"]++
+			return
+		}
 		// a second Create (default, exclusive flags) of the path that already exists: must be refused, and
 		// neither the file nor the live handle may be affected (checked by the callers' byte comparisons)
 		before, _ := os.ReadFile(h.path)
@@ -533,6 +596,24 @@ func (h *histRunner) apply(op Op) (fs []Finding) {
 		h.facts["create-again"]++
 	case "abandon":
 		// drop the handle without Sync: the file must hold the last synced state
+		if op.ID == 1 && h.facts["sync"]+h.facts["reopen"] > 0 {
+			// not even closed: the handle becomes garbage and is collected (nothing may reach the disk then either)
+			h.db = nil
+			for i := 0; i < 3; i++ {
+				runtime.GC()
+				time.Sleep(2 * time.Millisecond)
+			}
+			db, err := openWT(h.path, wt.WithoutFlock()) // (the collected descriptor may still hold the lock)
+			if err != nil {
+				fs = append(fs, h.finding("reopen-error", "Open after the handle was dropped failed: %v", err))
+				return
+			}
+			h.db = db
+			h.m = h.synced.Clone()
+			h.facts["abandon"]++
+			h.facts["dropped-without-close"]++
+			return
+		}
 		h.db.Close()
 		if h.facts["sync"]+h.facts["reopen"] == 0 {
 			// nothing was ever synced: the file holds no header yet, so the history ends here
